@@ -14,7 +14,7 @@ from ..real.env import reset_globals
 
 MODULE = "NadaVerif.Props.C13"
 TRANSLATORS = None
-THEOREMS = [f"NadaVerif.C13.{n}" for n in (
+THEOREMS = [f"NadaVerif.C13.{n}" for n in ("timers_balanced_after_history", "no_timer_error_after_history", "good_program_compiles_after_history") + (
     "cli_one_line", "cli_path_success", "cli_path_failure", "cli_string_entry", "entry_points_agree",
     "compile_deterministic", "runCmds_append")]
 
@@ -401,6 +401,89 @@ def check_names(src, tmp, names, reference):
     return viol
 
 
+def timer_program(spec):
+    """program text that fails exactly where the abstract program says: while it is loaded, inside nada_main, or while the
+    i-th output is traversed (two different inputs under one name reach the compiler there)"""
+    lines = ["from nada_dsl import *"]
+    if spec["importFails"]:
+        lines.append("raise RuntimeError('while the program is loaded')")
+    lines += ["", "", "def nada_main():", "    p = Party(name='P')"]
+    if spec["mainFails"]:
+        lines.append("    raise RuntimeError('inside nada_main')")
+    outs = []
+    for i, (name, fails) in enumerate(spec["outputs"]):
+        if fails:
+            lines += [f"    x{i} = SecretInteger(Input(name='dup{i}', party=p))", f"    y{i} = SecretInteger(Input(name='dup{i}', party=p))", f"    v{i} = x{i} + y{i}"]
+        else:
+            lines += [f"    x{i} = SecretInteger(Input(name='in{i}', party=p))", f"    v{i} = x{i} * x{i}"]
+        outs.append(f"Output(v{i}, {name!r}, p)")
+    lines.append("    return [" + ", ".join(outs) + "]")
+    return "\n".join(lines) + "\n"
+
+
+def timer_correspondence(res, tier, tmp):
+    """K12 — tie of `Runtime.runHistory` (Lean: the timers as a state machine, proved balanced for every history) to the code:
+    random histories of compilations that fail at every stage, through both entry points, run in a new interpreter with the
+    timers enabled and every `start` / `stop` recorded; the model, given the same abstract history, must produce the same
+    calls in the same order, the same outcomes, and the same (empty) set of running timers."""
+    import subprocess
+    import sys
+    rng = R.make("C13timers")
+    n = 8 if tier == "quick" else 80
+    d = os.path.join(tmp, "timers")
+    os.makedirs(d, exist_ok=True)
+    stats = {"histories": 0, "compilations": 0, "calls_compared": 0, "disagreements": 0, "left_running": 0}
+    reqs, reals = [], []
+    for h in range(n):
+        hist, args = [], []
+        for k in range(rng.randint(2, 6)):
+            shape = rng.choice(["good", "good", "import", "main", "output", "output"])
+            outs = [[rng.choice(["o", "out", "total", "o"]), False] for _ in range(rng.randint(1, 4))]
+            if shape == "output":
+                outs[rng.randrange(len(outs))][1] = True
+            spec = {"string": rng.random() < 0.4, "importFails": shape == "import", "mainFails": shape == "main", "outputs": outs}
+            path = os.path.join(d, f"h{h}_p{k}.py")
+            with open(path, "w", encoding="utf-8") as f:
+                f.write(timer_program(spec))
+            hist.append(spec)
+            args.append(("string:" if spec["string"] else "script:") + path)
+        env = dict(os.environ, PYTHONPATH=os.pathsep.join([core.REPO, os.path.join(core.VERIF, "harness")]), PYTHONDONTWRITEBYTECODE="1")
+        env.pop("NADA_TIMER", None)
+        p = subprocess.run([sys.executable, "-m", "nv.real.timer_hist"] + args, cwd=d, env=env, capture_output=True, text=True, timeout=300)
+        try:
+            real = json.loads(p.stdout)
+        except ValueError:
+            raise core.Infra(f"timer_hist failed: {(p.stderr or p.stdout)[-300:]}")
+        reqs.append({"k": "timers", "history": hist})
+        reals.append((hist, real))
+    for (hist, real), model in zip(reals, core.driver(reqs)):
+        if "error" in model:
+            raise core.Infra(f"timers request rejected: {model}")
+        stats["histories"] += 1
+        stats["compilations"] += len(hist)
+        stats["calls_compared"] += len(real["log"])
+        if real["running"]:
+            stats["left_running"] += 1
+        # what the property says, on the real run: a program that fails nowhere compiles whatever was compiled before it
+        for k, (spec, oc) in enumerate(zip(hist, real["outcomes"])):
+            good = not spec["importFails"] and not spec["mainFails"] and not any(f for _, f in spec["outputs"])
+            if good and oc != 0 or oc == 1:
+                res.violation({"property": "C13", "kind": "timers-history", "history": hist, "position": k, "outcomes": real["outcomes"],
+                               "sources": [timer_program(s_) for s_ in hist]},
+                              f"timers enabled, compilation {k + 1} of {len(hist)} in one process ({'compile_string' if spec['string'] else 'compile_script'}): "
+                              + ("ends with a TimerError" if oc == 1 else "a program that fails nowhere does not compile")
+                              + f" after outcomes {real['outcomes'][:k]} (0 compiled, 2 failed)")
+                break
+        if real["log"] != model["log"] or real["outcomes"] != model["outcomes"] or real["running"] != sorted(model["running"]):
+            stats["disagreements"] += 1
+            if stats["disagreements"] <= 2:
+                j = next((i for i, (a, b) in enumerate(zip(real["log"], model["log"])) if a != b), min(len(real["log"]), len(model["log"])))
+                res.broken.append({"decl": "Runtime.runHistory (Lean timers state machine) vs recorded timer.start / timer.stop calls",
+                                   "msg": f"call {j}: real {real['log'][j:j + 1]}, model {model['log'][j:j + 1]}; outcomes real {real['outcomes']} model "
+                                          f"{model['outcomes']}; running real {real['running']} model {model['running']}", "history": hist})
+    return stats
+
+
 def run(res, tier):
     n = 10 if tier == "quick" else 150
     seeds = ["0", "1", "4242"] if tier == "quick" else ["0", "1", "2", "4242", "random"]
@@ -518,9 +601,11 @@ def run(res, tier):
             if err or obj["result"] != "Failure":
                 res.violation({"property": "C13", "kind": "failure-envelope", "args": args, "stdout": out[:300]},
                               f"arguments {args}: expected one Failure object, got {err or obj['result']}")
+        timer_stats = timer_correspondence(res, tier, tmp)
     finally:
         shutil.rmtree(tmp, ignore_errors=True)
     res.coverage.update({
+        "timers_state_machine_K12": timer_stats,
         "evaluations": evals, "distinct_nontrivial": len(nontrivial),
         "rule": "generated programs rendered to Python source and compiled in fresh processes: file path under "
                 f"PYTHONHASHSEED in {seeds}, base64 entry point under two hash seeds, both again with NADA_TIMER=1; stdout must be "
@@ -538,6 +623,23 @@ def run(res, tier):
 def replay(obj):
     tmp = tempfile.mkdtemp(prefix="nvc13")
     try:
+        if obj.get("kind") == "timers-history":
+            import subprocess
+            import sys
+            args = []
+            for k, (spec, text) in enumerate(zip(obj["history"], obj["sources"])):
+                path = os.path.join(tmp, f"p{k}.py")
+                with open(path, "w", encoding="utf-8") as f:
+                    f.write(text)
+                args.append(("string:" if spec["string"] else "script:") + path)
+            env = dict(os.environ, PYTHONPATH=os.pathsep.join([core.REPO, os.path.join(core.VERIF, "harness")]), PYTHONDONTWRITEBYTECODE="1")
+            p = subprocess.run([sys.executable, "-m", "nv.real.timer_hist"] + args, cwd=tmp, env=env, capture_output=True, text=True, timeout=300)
+            real = json.loads(p.stdout)
+            print(real["outcomes"], real["running"])
+            bad = 1 in real["outcomes"] or real["outcomes"][obj["position"]] != 0
+            if bad:
+                print("VIOLATION property=C13 replay=(replayed)")
+            return 1 if bad else 0
         if obj.get("kind") == "file-name":
             d = os.path.join(tmp, "ref")
             os.makedirs(d, exist_ok=True)
